@@ -1,4 +1,5 @@
 //# target src/environment.rs
+//# include ../common/watchdog.rs
 
     // C01 — everything else (parser recursion, VM operand stack discipline, filters taking &State, formatting) is
     // outside the verifiers' reach: BOUNDED native stand-in, panics caught.
@@ -104,4 +105,84 @@
             let _ = Environment::new().render_str(&src, ());
         }).unwrap().join();
         assert!(deep.is_ok(), "panic in nested syntax");
+    }
+
+//# ob name=nesting_no_panic_native role=native_bounded fn=compiler::parser+compiler::codegen+vm::eval_impl kind=bounded bound="every nesting of depth 1..=3 of 11 block constructs {for, for-else (taken and not taken), if, with, set-block, filter-block, autoescape, call-block, macro body, block} around each of 10 leaf statements {break, continue, text, expression, set, loop.index, caller(), super(), include, nested loop call}: about 1.5*10^4 templates, loaded and rendered (feature loop_controls); the listed known finding (break/continue leaving a with / set-block / filter block, DESIGN §7) is excluded" stmt="loading and rendering every such template returns a value or an error; it never panics (a loop control inside a body that runs in another frame - call block, macro - must be rejected at load time or handled, not crash at run time)"
+    fn nesting_no_panic_native() {
+        with_watchdog("nesting_no_panic_native", 30, |progress| {
+        let constructs: [(&str, &str, &str); 11] = [
+            ("for", "{% for i in [1, 2] %}", "{% endfor %}"),
+            ("forelse_not_taken", "{% for i in [1] %}", "{% else %}e{% endfor %}"),
+            ("forelse_taken", "{% for i in [] %}n{% else %}", "{% endfor %}"),
+            ("if", "{% if true %}", "{% endif %}"),
+            ("with", "{% with a = 1 %}", "{% endwith %}"),
+            ("setblock", "{% set v %}", "{% endset %}"),
+            ("filter", "{% filter upper %}", "{% endfilter %}"),
+            ("autoescape", "{% autoescape true %}", "{% endautoescape %}"),
+            ("call", "{% call m() %}", "{% endcall %}"),
+            ("macro", "{% macro q() %}", "{% endmacro %}{{ q() }}"),
+            ("block", "{% block bN %}", "{% endblock %}"),
+        ];
+        let leaves = ["{% break %}", "{% continue %}", "x", "{{ i }}", "{% set z = 1 %}", "{{ loop.index }}", "{{ caller() }}", "{{ super() }}",
+                      "{% include 'inc' %}", "{% for j in [1] recursive %}{{ loop([]) }}{% endfor %}"];
+        let prelude = "{% macro m() %}[{{ caller() }}]{% endmacro %}";
+        let mut env = Environment::new();
+        env.add_template("inc", "I").unwrap();
+        let mut count = 0u64;
+        let nc = constructs.len();
+        for depth in 1..=3usize {
+            let total = nc.pow(depth as u32);
+            for code in 0..total {
+                let mut sel = Vec::new(); let mut c = code;
+                for _ in 0..depth { sel.push(c % nc); c /= nc; }
+                for leaf in leaves {
+                    // known finding (C05): break / continue whose way out to the enclosing for loop crosses a with,
+                    // set-block or filter block. Excluded here; its witness is C05's break_continue_native.
+                    if leaf.contains("break") || leaf.contains("continue") {
+                        let mut crosses = false;
+                        for &k in sel.iter().rev() { // innermost first
+                            let name = constructs[k].0;
+                            // the leaf of "forelse_taken" sits in the else body, which is outside that loop
+                            if name == "for" || name == "forelse_not_taken" { break; }
+                            if name == "with" || name == "setblock" || name == "filter" { crosses = true; }
+                        }
+                        if crosses { continue; }
+                    }
+                    let mut src = String::from(prelude);
+                    for (lvl, &k) in sel.iter().enumerate() { src.push_str(&constructs[k].1.replace("bN", &format!("b{lvl}"))); }
+                    src.push_str(leaf);
+                    for &k in sel.iter().rev() { src.push_str(constructs[k].2); }
+                    progress(&src);
+                    let r = std::panic::catch_unwind(std::panic::AssertUnwindSafe(|| {
+                        let _ = env.render_str(&src, crate::context! { x => 1 });
+                    }));
+                    assert!(r.is_ok(), "PANIC while loading / rendering {src:?}");
+                    count += 1;
+                }
+            }
+        }
+        assert!(count > 12_000, "{count}");
+        });
+    }
+
+//# ob name=long_chains_small_stack_native role=native_bounded fn=value::ops::add+value::merge_object+vm::eval_impl kind=bounded bound="accumulations of 10000 steps in both operand orders for list + list and string ~ string, then length / sum / first / last / iteration / drop, on a thread with a 2 MiB stack (debug profile)" stmt="building a value by many repeated binary operations and then using and dropping it neither panics nor exhausts a 2 MiB native stack, whichever operand holds the accumulator"
+    fn long_chains_small_stack_native() {
+        let programs = [
+            ("{% set ns = namespace(acc=[]) %}{% for i in range(10000) %}{% set ns.acc = ns.acc + [i] %}{% endfor %}{{ ns.acc|length }}|{{ ns.acc|sum }}|{{ ns.acc|first }}|{{ ns.acc|last }}", "10000|49995000|0|9999"),
+            ("{% set ns = namespace(acc=[]) %}{% for i in range(10000) %}{% set ns.acc = [i] + ns.acc %}{% endfor %}{{ ns.acc|length }}|{{ ns.acc|sum }}|{{ ns.acc|first }}|{{ ns.acc|last }}", "10000|49995000|9999|0"),
+            ("{% set ns = namespace(acc=[]) %}{% for i in range(3000) %}{% set ns.acc = [i] + ns.acc + [i] %}{% endfor %}{% for x in ns.acc %}{% if loop.last %}{{ loop.length }}{% endif %}{% endfor %}", "6000"),
+            ("{% set ns = namespace(acc='') %}{% for i in range(10000) %}{% set ns.acc = 'a' ~ ns.acc %}{% endfor %}{{ ns.acc|length }}", "10000"),
+            ("{% set ns = namespace(acc='') %}{% for i in range(10000) %}{% set ns.acc = ns.acc ~ 'a' %}{% endfor %}{{ ns.acc|length }}", "10000"),
+        ];
+        for (src, expected) in programs {
+            // the thread is named after this obligation so that a stack overflow (which aborts the process) is attributed to it
+            let h = std::thread::Builder::new().name("verif_native_long_chains_small_stack_native".into()).stack_size(2 << 20).spawn(move || {
+                Environment::new().render_str(src, ())
+            }).unwrap();
+            match h.join() {
+                Ok(Ok(out)) => assert!(out == expected, "{src}: rendered {out:?}, expected {expected:?}"),
+                Ok(Err(_)) => {} // an error value is acceptable for this property
+                Err(_) => panic!("PANIC while rendering {src:?}"),
+            }
+        }
     }
